@@ -319,6 +319,54 @@ func ruleEvents(c *Ctx) {
 					}
 				}
 			}
+			// … or in a package-level map indexed by the opcode, filled once by the package initialiser and
+			// written nowhere else
+			if lk, ok := cl.Call.Args[3].(*ssa.Lookup); ok && lk.Index == opParam {
+				if ld, ok := lk.X.(*ssa.UnOp); ok {
+					if gl, ok := ld.X.(*ssa.Global); ok {
+						writers := 0
+						for _, f2 := range p.srcFuncs {
+							if f2.Pkg != fn.Pkg {
+								continue
+							}
+							for _, b2 := range f2.Blocks {
+								for _, in2 := range b2.Instrs {
+									mu, ok := in2.(*ssa.MapUpdate)
+									if !ok {
+										continue
+									}
+									if u2, ok := mu.Map.(*ssa.UnOp); ok && u2.X == ssa.Value(gl) {
+										writers++
+									}
+								}
+							}
+						}
+						if initFn := fn.Pkg.Func("init"); initFn != nil && writers == 0 {
+							for _, b2 := range initFn.Blocks {
+								for _, in2 := range b2.Instrs {
+									st, ok := in2.(*ssa.Store)
+									if !ok || st.Addr != ssa.Value(gl) {
+										continue
+									}
+									mm, ok := st.Val.(*ssa.MakeMap)
+									if !ok || mm.Referrers() == nil {
+										continue
+									}
+									for _, r := range *mm.Referrers() {
+										if mu, ok := r.(*ssa.MapUpdate); ok {
+											k, okk := constInt(mu.Key)
+											ev, okv := constStr(mu.Value)
+											if okk && okv {
+												got[k] = ev
+											}
+										}
+									}
+								}
+							}
+						}
+					}
+				}
+			}
 			// operand order
 			lvs := paramsOfType(fn, "LValue")
 			ok12 := len(lvs) == 2 && cl.Call.Args[1] == ssa.Value(lvs[0]) && cl.Call.Args[2] == ssa.Value(lvs[1])
